@@ -77,18 +77,31 @@ def s_diagrams(draw):
         "xy_range": draw(st.sampled_from([None, None, None, [-1.0, 12.0, -2.0, 15.0], [0.0, 5.0, 0.0, 5.0], [-200.0, 200.0, -150.0, 300.0]])),
         "single_array": k == 1 and draw(st.booleans()),
     }
-    return {"fam": fam, "n_inf": n_inf, "opts": opts, "axes": draw(st.sampled_from(["current", "given_current", "given_not_current"]))}
+    return {"fam": fam, "n_inf": n_inf, "opts": opts, "axes": draw(st.sampled_from(["current", "given_current", "given_not_current"])),
+            "dtype": draw(st.sampled_from(["float64", "float64", "float32"])), "twice": draw(st.booleans())}
 
 
 def check_diagrams(case, ctx):
+    """the same arrays may be plotted twice (fresh axes each time): the second picture must be as exact as the first"""
     fam, o = case["fam"], case["opts"]
+    dt = np.float32 if case.get("dtype") == "float32" else np.float64
     k = len(fam["dgms"])
     if len(case["n_inf"]) != k:
         ctx.skip("malformed (shrinker)")
-    dgms = []
+    user_arrays = []
     for d, ni in zip(fam["dgms"], case["n_inf"]):
         rows = [list(p) for p in d] + [[d[i % len(d)][0], INF] for i in range(ni)]
-        dgms.append(np.array(rows, dtype=float))
+        user_arrays.append(np.array(rows, dtype=dt))
+    pristine = [a.copy() for a in user_arrays]
+    ctx.label("dtype:" + str(np.dtype(dt)), "twice" if case.get("twice") else "once")
+    for pass_no in range(2 if case.get("twice") else 1):
+        _check_diagrams_once(case, ctx, user_arrays, pristine, pass_no)
+
+
+def _check_diagrams_once(case, ctx, user_arrays, pristine, pass_no):
+    fam, o = case["fam"], case["opts"]
+    k = len(fam["dgms"])
+    dgms = pristine            # expectations come from the values as first handed over
     sel = o["plot_only"] if o["plot_only"] else list(range(k))
     if any(i >= k for i in sel):
         ctx.skip("plot_only index out of range (shrinker)")
@@ -114,13 +127,14 @@ def check_diagrams(case, ctx):
     try:
         kw = dict(plot_only=o["plot_only"], title=o["title"], xy_range=o["xy_range"], labels=labels, diagonal=o["diagonal"],
                   lifetime=o["lifetime"], legend=o["legend"], ax=ax_arg)
-        arg = dgms[0] if (o["single_array"] and k == 1) else dgms
+        arg = user_arrays[0] if (o["single_array"] and k == 1) else list(user_arrays)
         with warnings.catch_warnings():
             warnings.simplefilter("ignore")
             ctx.call(plot_diagrams, arg, **kw)
-        ctx.label("axes:" + case["axes"], "inf" if has_inf else "finite", "lifetime" if o["lifetime"] else "birth_death",
-                  "xy_range" if o["xy_range"] else "auto_range", "plot_only" if o["plot_only"] else None)
-        ctx.nontrivial(len(shown) >= 2 and min(len(d) for d in shown) >= 3)
+        if pass_no == 0:
+            ctx.label("axes:" + case["axes"], "inf" if has_inf else "finite", "lifetime" if o["lifetime"] else "birth_death",
+                      "xy_range" if o["xy_range"] else "auto_range", "plot_only" if o["plot_only"] else None)
+            ctx.nontrivial(len(shown) >= 2 and min(len(d) for d in shown) >= 3)
         untouched(ctx, others)
         colls, lines = artists(ax)
         ctx.require(len(colls) == len(shown), "collection_count", lambda: "%d scatter collections for %d plotted diagrams" % (len(colls), len(shown)))
